@@ -175,6 +175,9 @@ func genC08(r *hlib.Rng, n int) In {
 			fo.Fault = &Fault{Table: "rht", K: r.Intn(nb)}
 			in.Ops = append(in.Ops, fo)
 		}
+		if nb > 0 && r.Intn(3) == 0 { // readers ask for the roots / proofs of this block while its transaction is open
+			blk.Fault = &Fault{Table: "bridge", K: r.Intn(nb), Read: true}
+		}
 		in.Ops = append(in.Ops, blk)
 		switch r.Intn(8) {
 		case 0:
@@ -212,8 +215,10 @@ func liveBlocks(ops []Op) []Op {
 	for _, op := range ops {
 		switch op.K {
 		case "block":
-			if op.Fault == nil && !isGapBlock(live, op) {
-				live = append(live, op)
+			if (op.Fault == nil || op.Fault.Read) && !isGapBlock(live, op) {
+				lo := op
+				lo.Fault = nil // the twin processes the block plainly
+				live = append(live, lo)
 			}
 		case "reorg":
 			var keep []Op
@@ -391,6 +396,9 @@ func genC07(r *hlib.Rng, n int) In {
 					in.Ops = append(in.Ops, Op{K: "restart"})
 				}
 			}
+		}
+		if nb := func() int { n := 0; for _, e := range op.Events { if e.T == "bridge" { n++ } }; return n }(); nb > 0 && r.Intn(6) == 0 {
+			op.Fault = &Fault{Table: "bridge", K: r.Intn(nb), Read: true} // mid-transaction readers; the block itself succeeds
 		}
 		in.Ops = append(in.Ops, op)
 		if r.Intn(8) == 0 {
